@@ -1,5 +1,27 @@
-"""C01 - One image per drawable, whichever drawing path the target offers  (metadata; generators live here and/or in props/C01_*.py parts)"""
-CLAIMED = False   # set True by the owner once ./check C01 passes with real theorems
+"""C01 - One image per drawable, whichever drawing path  (metadata + implementation-side search; Coq parts in Properties/C01_*.v)"""
+from common import *
+
+CLAIMED = False   # set True once the theorem parts (C01_targets, C01_<family>) are merged
 LEVEL = 'proof'
 LEVEL_TEXT = 'TODO'
 LEVEL_NOTE = 'TODO'
+RULE = ('search p_paths: every drawable family of the zoo (styled rectangle/circle/ellipse/rounded rectangle/triangle/line/polyline/arc/sector, '
+        'images, sub-images, text with 8 fonts) x random styles (fill/stroke present/absent, widths 0..12, 3 alignments) x positions x target boxes '
+        '(non-origin, cutting the object, missing it, empty): pixel maps of draw() on a draw_iter-only target, draw() on a native fill target, '
+        'a draining native target, and pixels() fed to draw_iter must be equal.')
+
+
+def search(tier, rng):
+    n = 8000 if tier == 'quick' else 150000
+    for k in range(n):
+        fam = FAMILIES[k % len(FAMILIES)]
+        r = rng.random()
+        if r < 0.5:
+            bb = (rng.randrange(-40, 20), rng.randrange(-40, 20), rng.randrange(0, 90), rng.randrange(0, 90))
+        elif r < 0.8:
+            bb = (rng.randrange(-10, 11), rng.randrange(-10, 11), rng.randrange(0, 25), rng.randrange(0, 25))
+        elif r < 0.9:
+            bb = (-200, -200, 400, 400)
+        else:
+            bb = (rng.randrange(-40, 40), rng.randrange(-40, 40), rng.choice([0, 1, 5]), rng.choice([0, 1, 5]))
+        yield J('p_paths', *bb, zoo_case(rng, fam))
